@@ -214,8 +214,9 @@ class Guards:
        ("S", canon(expr), value|'default') switch edge
     A fact is killed when a variable it mentions is written."""
 
-    def __init__(self, fn):
+    def __init__(self, fn, extra_writes=None):
         self.fn = fn
+        self.extra_writes = extra_writes
         cfg = fn.cfg
         self.cfg = cfg
         reach = cfg.reachable()
@@ -253,7 +254,7 @@ class Guards:
         for bid in reach:
             w = set()
             for n in element_nodes(fn, bid):
-                w |= written_decls(n)
+                w |= self._writes(n)
             self.block_writes[bid] = w
         TOP = None
         IN = {b: TOP for b in reach}
@@ -280,6 +281,12 @@ class Guards:
                     IN[b], OUT[b] = new_in, new_out
                     changed = True
         self.IN, self.OUT = IN, OUT
+
+    def _writes(self, n):
+        w = written_decls(n)
+        if self.extra_writes is not None:
+            w = w | set(self.extra_writes(n))
+        return w
 
     def _add_edge(self, p, s, raw_facts):
         ks = set()
@@ -346,7 +353,7 @@ class Guards:
             if isinstance(e, int):
                 n = self.fn.nodes.get(e)
                 if n is not None:
-                    written |= written_decls(n)
+                    written |= self._writes(n)
         return set(f for f in self.IN[b] if not self._killed(f, written))
 
     def truthy(self, node, expr, want=True):
@@ -536,3 +543,62 @@ def block_paths_reach(cfg, start, targets, avoid=()):
             return True
         st.extend(cfg.succ[b])
     return False
+
+
+class PathStates:
+    """Small path-sensitive forward analysis: the state at a point is the set
+    of abstract tuples that can reach it (powerset domain, join = union).
+      elem_tf(node, tup) -> tup            effect of evaluating one CFG element
+      edge_tf(fact_keys, tup) -> tup|None  effect of taking a branch edge whose
+                                           normalised facts are fact_keys
+                                           (None = edge infeasible for tup)
+    Terminates because the tuple universe is finite (callers keep it tiny)."""
+
+    def __init__(self, fn, init, elem_tf, edge_tf=None, guards=None):
+        self.fn = fn
+        self.cfg = fn.cfg
+        self.elem_tf = elem_tf
+        self.edge_tf = edge_tf
+        self.g = guards or Guards(fn)
+        reach = self.cfg.reachable()
+        self.IN = {b: set() for b in reach}
+        self.IN[self.cfg.entry] = {init}
+        work = [self.cfg.entry]
+        self.OUT = {}
+        seen_out = {}
+        while work:
+            b = work.pop()
+            st = set(self.IN[b])
+            for n in element_nodes(fn, b):
+                st = set(elem_tf(n, t) for t in st)
+            if seen_out.get(b) == st:
+                continue
+            seen_out[b] = set(st)
+            self.OUT[b] = st
+            for s in self.cfg.succ[b]:
+                if s < 0 or s not in reach:
+                    continue
+                ef = self.g.edge_facts.get((b, s), set())
+                new = set()
+                for t in st:
+                    t2 = edge_tf(ef, t) if edge_tf else t
+                    if t2 is not None:
+                        new.add(t2)
+                if not new <= self.IN[s]:
+                    self.IN[s] |= new
+                    work.append(s)
+
+    def before(self, node):
+        pos = self.g.position(node)
+        if pos is None:
+            return None
+        b, idx = pos
+        if b not in self.IN:
+            return None
+        st = set(self.IN[b])
+        for e in self.cfg.blocks[b]["e"][:idx]:
+            if isinstance(e, int):
+                n = self.fn.nodes.get(e)
+                if n is not None:
+                    st = set(self.elem_tf(n, t) for t in st)
+        return st
